@@ -68,7 +68,10 @@ def run(ctx):
         toks += ["p:0", "p:%x" % base[0]]
         hcases.append("hm " + " ".join(toks))
     rc1, h1, e1, h2 = both(hcases, impl, model, shards=4)
+    hm_unavailable = any((a or "").strip() == "UNAVAILABLE" for a in h1)
     for c, a, b in zip(hcases, h1, h2):
+        if hm_unavailable:
+            break       # the table no longer maps a key to a plain Score: judged below on the evaluator's observable behaviour
         if a != b:
             nviol += 1
             if nviol <= 3:
@@ -132,6 +135,47 @@ def run(ctx):
             else:
                 seq.append(rng.choice(seq) if seq else rng.choice(fens))
         seqs.append(seq)
+    # everything the pawn key does NOT cover, varied under one pawn structure: castling-right subsets (per colour, in every order),
+    # king squares, side to move - a value cached next to the pawn score must not outlive a change of any of them
+    def rights_variants(f):
+        p_ = f.split()
+        rows = p_[0].split("/")
+        avail = ""
+        if rows[7][4:5] == "K" or _at(rows[7], 4) == "K":
+            avail += ("K" if _at(rows[7], 7) == "R" else "") + ("Q" if _at(rows[7], 0) == "R" else "")
+        if _at(rows[0], 4) == "k":
+            avail += ("k" if _at(rows[0], 7) == "r" else "") + ("q" if _at(rows[0], 0) == "r" else "")
+        outs = []
+        for mask in range(1 << len(avail)):
+            r_ = "".join(ch for i, ch in enumerate(avail) if mask >> i & 1) or "-"
+            outs.append(" ".join([p_[0], p_[1], r_, "-", p_[4], p_[5]]))
+        return outs
+
+    def _at(row, col):
+        c_ = 0
+        for ch in row:
+            if ch.isdigit():
+                c_ += int(ch)
+            else:
+                if c_ == col:
+                    return ch
+                c_ += 1
+        return None
+    CASTLE_BASES = ["r3k2r/p1ppqpb1/bn2pnp1/3PN3/1p2P3/2N2Q1p/PPPBBPPP/R3K2R w KQkq - 0 1", "r1bqk2r/ppp2ppp/2np1n2/2b1p3/2B1P3/2NP1N2/PPP2PPP/R1BQK2R b KQkq - 0 6",
+                    "r3k2r/ppp2ppp/2n5/3pp3/8/2N2N2/PP3PPP/R3K2R w KQkq - 0 1", "r3k2r/1pp2p1p/p5p1/8/8/P5P1/1PP2P1P/R3K2R b KQkq - 0 1",
+                    "rn2k2r/pp3ppp/8/8/8/8/PPP3PP/R3K1NR w KQkq - 0 1", "r3k2r/5ppp/8/8/8/8/PPP5/R3K2R w KQkq - 0 1", "r3k2r/ppp5/8/8/8/8/5PPP/R3K2R b KQkq - 0 1"]
+    cb = [f for f in fens if f.split()[2] != "-"][: (20 if q else 300)] + CASTLE_BASES
+    nrv = 0
+    for f in cb:
+        vs = posgen.filter_valid(model, rights_variants(f))
+        if len(vs) < 2:
+            continue
+        for _ in range(2 if q else 4):
+            order = list(vs)
+            rng.shuffle(order)
+            seqs.append(order + order[:2])
+            nrv += 1
+    ctx.notes["castling_rights_variant_sequences"] = nrv
     allf = sorted({f for s in seqs for f in s if f != "c"})
     rc, fresh, err = run_lines(impl, ["eval " + f for f in allf], shards=NPROC)
     freshv = {f: (r or "?").split()[0] for f, r in zip(allf, fresh)}
@@ -179,6 +223,10 @@ def run(ctx):
                        "positions; endgame classes; a structure whose key falls into slot 0 followed by clear and pawnless positions) - every value must equal a "
                        "fresh evaluator's; (3) every value (incl. extreme-material positions: 9 queens, 10 rooks, 8 pawns on the 7th) strictly inside the non-mate "
                        "range.  non-trivial = distinct positions evaluated." % (len(hcases), len(seqs)))
+    if hm_unavailable and nviol == 0:
+        ctx.violation("correspondence 'hm' broken: the pawn table no longer maps a key to a plain Score, so the model of the cache (Engine/EvalCache.v, theorem "
+                      "C14_pure) no longer describes the code; no evaluation that depends on earlier evaluations was found",
+                      {"correspondence": "hm"}, no_input=True)
     if not ok and nviol == 0:
         ctx.violation("Coq obligations for C14 no longer check (%s); no impure or out-of-range evaluation found" % ", ".join(failed),
                       {"theorem_files": failed, "coq_output": out[-3000:]}, no_input=True)
